@@ -35,7 +35,7 @@ PROPS = {
 # runs per flavour; sizes; determinism-gate sample; wall-clock cap of the sweeps (s)
 TIERS = {
     "quick": dict(runs=dict(C03=40000, C04=40000, C05=30000, C08=12000, C12=30000, C17=60000, C18=12000, C19=20000), maxlog=9, maxlog_tree=6, max_copy=20000, gate=200, cap_s=150, cold=320),
-    "thorough": dict(runs=dict(C03=60000, C04=50000, C05=50000, C08=30000, C12=60000, C17=120000, C18=24000, C19=40000), maxlog=12, maxlog_tree=8, max_copy=70000, gate=3000, cap_s=900, cold=3200),
+    "thorough": dict(runs=dict(C03=200000, C04=160000, C05=120000, C08=80000, C12=160000, C17=400000, C18=60000, C19=100000), maxlog=12, maxlog_tree=8, max_copy=70000, gate=3000, cap_s=1500, cold=3200),
 }
 MAX_FAILING_RUNS = 400  # a sweep stops once this many of its runs failed
 MAX_EVENTS = 60  # violating runs per flavour that are classified (replayed) individually
@@ -494,6 +494,26 @@ def minimise(binary, plan, prop, sig, budget_runs=1500, budget_s=120):
     return cur, runs
 
 
+def symbolise(binary, text):
+    """Appends file:line for the text addresses a report mentions (the binary is -no-pie and built with -g1)."""
+    import re
+    pcs = re.findall(r"0x[0-9a-f]{5,8}\b", text or "")
+    if not pcs or not shutil.which("addr2line"):
+        return text
+    try:
+        out = subprocess.run(["addr2line", "-C", "-f", "-e", binary] + pcs, stdout=subprocess.PIPE, text=True, timeout=20).stdout.splitlines()
+    except Exception:
+        return text
+    locs = []
+    for k, pc in enumerate(pcs):
+        if 2 * k + 1 < len(out):
+            fn = out[2 * k].split("(")[0][-60:]
+            loc = out[2 * k + 1]
+            loc = loc.replace(B.REPO + "/", "").split(" (discriminator")[0]
+            locs.append("%s = %s %s" % (pc, loc, fn))
+    return text + "  [" + "; ".join(locs) + "]" if locs else text
+
+
 def load_known():
     if not os.path.exists(KNOWN):
         return []
@@ -748,7 +768,7 @@ def main():
                     unreproducible.append("minimised plan of run %d does not reproduce" % i)
                     continue
                 small["outcome"] = ff["cls"]
-                small["report"] = "op#%d %s: %s -- %s" % (ff["op"], ff["kind"], ff["oracle"], ff["detail"])
+                small["report"] = symbolise(sw.binary, "op#%d %s: %s -- %s" % (ff["op"], ff["kind"], ff["oracle"], ff["detail"]))
                 small["found_by"] = dict(tier=tier, verif_seed=seed, index=i, run_seed=s, minimisation_runs=runs)
                 hsh = hashlib.sha256(json.dumps(small["plan"], sort_keys=True).encode()).hexdigest()[:10]
                 path = os.path.join(REPLAYS, "%s-%d-%s.json" % (prop, s, hsh))
@@ -893,14 +913,13 @@ ASSUMPTIONS = {
 }
 EXPECTED_PROBES = {
     "C03": ["size<maxDomain", "size==maxDomain", "even_nphase_in_place", "ntt_null_dst_nblock>1", "nphase_clamped", "nblock_clamped", "noop_size0", "noop_ncols0", "team>trip_count", "team==1", "size==1", "fault_free_configuration"],
-    "C04": ["size<maxDomain", "intt_last_pass_width1", "intt_last_pass_wider", "intt_null_dst_nblock>1", "nphase_not_dividing_log", "fault_free_configuration"],
-    "C05": ["extend_even_nphase_single_block", "extend_N==1", "extend_N==N_ext", "extend_in_place", "size<maxDomain", "fault_free_configuration"],
-    "C19x": [],
+    "C04": ["size<maxDomain", "intt_last_pass_width1", "intt_last_pass_wider", "intt_null_dst_nblock>1", "nphase_not_dividing_log", "fault_free_configuration", "inverse_via_NTT_flag", "main_before_reference"],
+    "C05": ["extend_even_nphase_single_block", "extend_N==1", "extend_N==N_ext", "extend_in_place", "size<maxDomain", "fault_free_configuration", "extension_object_used_directly", "main_before_reference"],
     "C08": ["rows==1", "rowlen%8!=0", "rowlen<=4_passthrough", "cols==0", "batch_not_dividing_cols", "batch>=cols", "merkle_nThreads0_after_icv_perturb", "dim>1", "team>trip_count", "fault_free_configuration"],
     "C12": ["team>trip_count", "team==trip_count", "team<trip_count", "team==1", "three_members_in_flight", "shortfall_fired", "limit_capped", "team>=64", "team>64", "main_before_reference"],
     "C17": ["copy_size0", "copy_threads<1", "copy_threads>size", "copy_last_chunk_short", "copy_threads_huge"],
     "C18": ["object_destroyed_after_extend", "object_destroyed", "rows==1", "size==1", "object_for_maxDomainSize_0", "garbage_differential_run"],
-    "C19": ["object_reused", "second_extend_with_different_N", "size<maxDomain", "merkle_nThreads0_after_icv_perturb"],
+    "C19": ["object_reused", "second_extend_with_different_N", "size<maxDomain", "merkle_nThreads0_after_icv_perturb", "extension_object_used_directly", "main_before_reference"],
 }
 
 if __name__ == "__main__":
